@@ -45,7 +45,7 @@ Definition complaints (c : case) : list (nat * string) :=
   let cfg_ok := files_equal (k_long_files c) (k_long_matches c) (k_fresh_files c) (k_fresh_matches c) in
   let st_ok := str_list_eqb (k_long_conds c) (k_fresh_conds c) in
   if cfg_ok && st_ok then []
-  else if has_mixed_group (k_final c) then [(code_known 33, "long-lived and fresh differ (finding D33: map-order dependent protocol)")]
+  else if has_mixed_group (k_final c) || mem_str "http-and-grpc-route-share-a-path" (k_flags c) then [(code_known 33, "long-lived and fresh differ (finding D33: map-order dependent protocol)")]
   else if mem_str "endpointslice-delete" (k_flags c) && st_ok then
          [(code_known known_D12, "configuration differs after an EndpointSlice deletion (finding D12)")]
   else if cfg_ok && class_D31 (k_long_conds c) (k_fresh_conds c) then
